@@ -11,6 +11,7 @@ import PintModel.Model.EvalTree
 import PintModel.Gen.EvalTables
 import PintModel.Model.Format
 import PintModel.Gen.FormatTables
+import PintModel.Model.Context
 import PintModel.Gen.DefaultRegistry
 
 open Lean
@@ -19,6 +20,8 @@ namespace Pint
 
 structure DriverState where
   reg : Registry
+  ctx : Ctx.State := {}
+  baseReg : Option Registry := none      -- the registry without context redefinitions
   deriving Inhabited
 
 /-! ### codecs -/
@@ -273,6 +276,89 @@ def stepFormat (R0 : Registry) (j : Json) : Json :=
     | _, _, _ => badJ "join_mu"
   | _ => badJ "format: f"
 
+
+/-! ### contexts (C11, C12) -/
+
+def jKw? (j : Json) : Option (List (String × Rat)) := do
+  let a ← jArr? j
+  a.toList.mapM fun p => do
+    let q ← jArr? p
+    pure (← jStr? (← q[0]?), ← jRat? (← q[1]?))
+
+def jRule? (j : Json) : Option Ctx.Rule := do
+  let ps ← (field j "params" >>= jArr?)
+  let params ← ps.toList.mapM fun p => do
+    let q ← jArr? p
+    let e ← jRat? (← q[1]?)
+    pure (← jStr? (← q[0]?), e.num)
+  pure { src := ← fUC j "src", dst := ← fUC j "dst", num := (fRat j "num").getD 1, units := (fUC j "units").getD [],
+         params := params, vexp := ((fRat j "vexp").getD 1).num, fid := ((fRat j "fid").getD 0).num.toNat }
+
+def jContext? (j : Json) : Option Ctx.Context := do
+  let rs ← (field j "rules" >>= jArr?)
+  let rules ← rs.toList.mapM jRule?
+  let rd := ((field j "redefs" >>= jArr?).getD #[]).toList
+  let redefs ← rd.mapM jUnitDef?
+  pure { name := ← fStr j "name", aliases := (fStrList j "aliases").getD [],
+         defaults := (field j "defaults" >>= jKw?).getD [], rules := rules, redefs := redefs }
+
+def activeJ (st : Ctx.State) : Json :=
+  Json.arr (st.active.map fun c => Json.arr #[Json.str c.name,
+    Json.arr ((c.defaults.toArray.qsort (fun a b => a.1 < b.1)).map fun p => Json.arr #[Json.str p.1, ratJ p.2])]).toArray
+
+def stepCtx (st : DriverState) (j : Json) : DriverState × Json :=
+  let base := st.baseReg.getD st.reg
+  let mode : Mode := { autoconvert := (fBool j "auto").getD false }
+  match fStr j "f" with
+  | some "add" =>
+    match field j "ctx" >>= jContext? with
+    | some c =>
+      let entries := (c.name :: c.aliases).map fun n => (n, c)
+      let ctxs := entries.foldl (fun acc e => (acc.filter (·.1 != e.1)) ++ [e]) st.ctx.contexts
+      ({ st with ctx := { st.ctx with contexts := ctxs }, baseReg := some base }, okJ Json.null)
+    | none => (st, badJ "ctx add: ctx")
+  | some "enable" =>
+    match fStrList j "names" with
+    | some names =>
+      let kw := (field j "kw" >>= jKw?).getD []
+      match Ctx.enable st.ctx names kw with
+      | .error _ => (st, errJ .key)
+      | .ok ctx' =>
+        match Ctx.effective base ctx'.active with
+        | .error e => (st, errJ e)          -- failed activation: nothing changes
+        | .ok R' => ({ st with ctx := ctx', reg := R', baseReg := some base }, okJ (activeJ ctx'))
+    | none => (st, badJ "ctx enable: names")
+  | some "disable" =>
+    let n := (fRat j "n").map (·.num.toNat)
+    let ctx' := Ctx.disable st.ctx n
+    match Ctx.effective base ctx'.active with
+    | .error e => (st, errJ e)
+    | .ok R' => ({ st with ctx := ctx', reg := R', baseReg := some base }, okJ (activeJ ctx'))
+  | some "active" => (st, okJ (activeJ st.ctx))
+  | some "convert" =>
+    match fRat j "x", fUC j "src", fUC j "dst" with
+    | some x, some s, some d =>
+      let R := registerKeys (registerKeys st.reg s) d
+      if st.ctx.active.isEmpty || s.beq d then (st, exceptJ (fun r => Json.arr #[ratJ r]) (R.convert x s d mode.autoconvert))
+      else
+        match R.getDimensionality s, R.getDimensionality d with
+        | .ok sd, .ok dd =>
+          let paths := Ctx.allShortest (Ctx.edges st.ctx) sd dd
+          if paths.isEmpty then (st, exceptJ (fun r => Json.arr #[ratJ r]) (R.convert x s d mode.autoconvert))
+          else
+            let results := paths.map fun p => Ctx.convertAlong R mode st.ctx x s d p
+            (st, Json.mkObj [("any", Json.arr (results.map (exceptJ ratJ)).toArray)])
+        | .error e, _ => (st, errJ e)
+        | _, .error e => (st, errJ e)
+    | _, _, _ => (st, badJ "ctx convert")
+  | some "path" =>
+    match fUC j "src", fUC j "dst" with
+    | some s, some d =>
+      (st, okJ (Json.arr ((Ctx.allShortest (Ctx.edges st.ctx) s d).map (fun p => Json.arr (p.map (ucJ ·)).toArray)).toArray))
+    | _, _ => (st, badJ "ctx path")
+  | some "clear" => ({ st with ctx := {}, reg := base, baseReg := none }, okJ Json.null)
+  | _ => (st, badJ "ctx: f")
+
 /-! ### registry queries (C01, C02, C08) -/
 
 def stepReg (st : DriverState) (op : String) (j : Json) : DriverState × Json :=
@@ -373,7 +459,7 @@ def stepReg (st : DriverState) (op : String) (j : Json) : DriverState × Json :=
       ("prefixes", Json.arr (R.prefixes.keys.map Json.str).toArray),
       ("dims", Json.arr (R.dims.keys.map Json.str).toArray),
       ("base_units", Json.arr (R.baseUnits.map Json.str).toArray)]))
-  | "reset" => ({ st with reg := Gen.defaultRegistry }, okJ Json.null)
+  | "reset" => ({ reg := Gen.defaultRegistry }, okJ Json.null)
   | "define" =>
     match field j "def" >>= jUnitDef? with
     | some d => ({ st with reg := R.addUnit d }, okJ Json.null)
@@ -401,6 +487,7 @@ def step (st : DriverState) (j : Json) : DriverState × Json :=
   | some "pi" => (st, stepPi j)
   | some "tree" => (st, stepTree j)
   | some "format" => (st, stepFormat st.reg j)
+  | some "ctx" => stepCtx st j
   | some op => stepReg st op j
 
 end Pint
